@@ -87,9 +87,98 @@ def _row_lookup(ex, st, k):
         goal = z3.And(goal, z3.BoolVal(bool(ok2)))
         if ok2:
             goal = z3.And(goal, z3.Or([blobs[0].args[0].t == r for r in _row_item(row, 3, st.epoch)]))
+    # MBTiles with timestamps: the modification time of THIS row (5th selected column) becomes the tile's timestamp
+    fi_name = str(getattr(st.fn, 'key', ''))
+    if 'MBTilesCache' in fi_name and ok:
+        h = st.heap[st.env['self'].ref]
+        ts = [e for e in evs_ if e.name == 'setattr:timestamp']
+        cv = [e for e in evs_ if e.name == 'sqlite_datetime_to_timestamp']
+        g_ts = ex.truth(st, h['supports_timestamp']) == z3.BoolVal(len(ts) == 1)
+        if len(ts) == 1:
+            okt = len(cv) == 1 and ts[0].args[0] is gets[0].result and ts[0].args[1] is cv[0].result and isinstance(cv[0].args[0], VOpaque)
+            g_ts = z3.And(g_ts, z3.BoolVal(bool(okt)))
+            if okt:
+                g_ts = z3.And(g_ts, z3.Or([cv[0].args[0].t == r for r in _row_item(row, 4, st.epoch)]))
+        yield ('row_timestamp_goes_to_its_tile', g_ts,
+               'with timestamp support the tile found for the row gets sqlite_datetime_to_timestamp(row[4]) - the last_modified '
+               'column of that row - and no timestamp is set otherwise')
     yield ('row_matched_by_column_row_level', goal,
            'each result row is handed to the tile object found under the key (row[0], row[1], row[2]) - column, row, level as '
            'selected - and that tile gets the bytes row[3]')
+
+
+def _wanted_coords_collected(ex, st, k):
+    """a tile is queried exactly when it has no data yet and has an address; its column, row, level are appended in this order"""
+    import z3
+    from pyvc.values import eq
+    pre = st.iter_start_state
+    tile = st.env['tile']
+    c0, c1 = pre.env['coords'], st.env['coords']
+    coord = ex.opaque_field(pre, tile, 'coord')
+    src = ex.opaque_field(pre, tile, 'source')
+    skip = z3.Or(ex.truth(pre, src), coord.isnone)
+    n0 = c0.length()
+    i = z3.Int('i_wc')
+    same_prefix = z3.ForAll([i], z3.Implies(z3.And(0 <= i, i < n0), c1.elem(i).t == c0.elem(i).t))
+    grown = z3.And(c1.length() == n0 + 3, same_prefix, c1.elem(n0).t == coord.val.items[0].t,
+                   c1.elem(n0 + 1).t == coord.val.items[1].t, c1.elem(n0 + 2).t == coord.val.items[2].t)
+    sets = [e for e in st.trace[getattr(st, 'iter_start_trace', 0):] if e.name == 'setitem']
+    yield ('queried_iff_missing_with_address', z3.If(skip, z3.And(c1.length() == n0, z3.BoolVal(not sets)),
+                                                     z3.And(grown, z3.BoolVal(len(sets) == 1))),
+           'the parameter list gets (column, row, level) of exactly the tiles that have no data yet and have an address, and each '
+           'of them is entered in the lookup table')
+
+
+def _chunk_is_whole_triples(ex, st, k):
+    import z3
+    from pyvc.values import eq
+    pre = st.iter_start_state
+    evs_ = st.trace[getattr(st, 'iter_start_trace', 0):]
+    exe = [e for e in evs_ if e.name == 'execute']
+    c0, c1 = pre.env['coords'], st.env['coords']
+    cur = st.env['cur_coords']
+    ok = len(exe) == 1 and len(exe[0].args) == 2 and exe[0].args[1] is cur and exe[0].args[0] is st.env['stmt']
+    n0, m = c0.length(), cur.length()
+    i = z3.Int('i_ch')
+    g = z3.And(z3.BoolVal(bool(ok)), m % 3 == 0, m > 0, m <= 999, m == z3.If(n0 < 999, n0, 999),
+               z3.ForAll([i], z3.Implies(z3.And(0 <= i, i < m), cur.elem(i).t == c0.elem(i).t)),
+               # nothing is lost or repeated between the chunks
+               c1.length() == n0 - m,
+               z3.ForAll([i], z3.Implies(z3.And(0 <= i, i < n0 - m), c1.elem(i).t == c0.elem(i + m).t)))
+    # one (column, row, level) placeholder group per triple of parameters
+    def find(t):
+        if z3.is_app(t) and t.decl().name() == 'str_join_rep':
+            return t
+        for c in (t.children() if z3.is_app(t) else []):
+            r = find(c)
+            if r is not None:
+                return r
+        return None
+    rep = find(st.env['stmt'].t) if hasattr(st.env.get('stmt'), 't') else None
+    g_ph = z3.BoolVal(False)
+    if rep is not None and z3.is_string_value(rep.arg(1)):
+        g_ph = z3.And(rep.arg(2) == m / 3, z3.BoolVal(rep.arg(1).as_string().count('?') == 3 and rep.arg(0).as_string() == ' OR '))
+    yield ('one_placeholder_group_per_triple', g_ph,
+           "the statement holds len(parameters) / 3 groups '(tile_column = ? AND tile_row = ? AND zoom_level = ?)' joined by OR")
+    yield ('each_chunk_is_whole_address_triples', g,
+           'every SELECT gets the next at most 999 parameters - a whole number of (column, row, level) triples, within the SQLite '
+           'limit - and the remaining parameters are exactly the rest')
+
+
+def _bulk_answer_db(ex, st, post, result):
+    import z3
+    from pyvc.values import VBool
+    td = st.env.get('tile_dict')
+    if 'loaded_tiles' not in st.env:
+        # returned before any query: only with an empty lookup table, and then the answer is True
+        g = z3.And(z3.Not(ex.truth(st, td)) if td is not None else z3.BoolVal(False), ex.truth(st, result))
+        yield ('no_query_only_when_nothing_to_load', g, 'the database is not queried only when the lookup table is empty (answer True)')
+    else:
+        sp = st.fork()
+        sp.spec = True
+        want = ex.truth(sp, ex.ev1(sp, ex.reg.parse_spec('loaded_tiles == len(tile_dict)')))
+        yield ('answer_counts_loaded_rows', z3.And(ex.truth(st, td) if td is not None else z3.BoolVal(False), ex.truth(st, result) == want),
+               'after querying (the lookup table was non-empty) the answer is: as many rows were found as tiles were asked for')
 
 
 for _k, _c in (('mapproxy.cache.mbtiles:', 'MBTilesCache'), ('mapproxy.cache.geopackage:', 'GeopackageCache')):
@@ -100,6 +189,10 @@ for _k, _c in (('mapproxy.cache.mbtiles:', 'MBTilesCache'), ('mapproxy.cache.geo
              opaque_spec={'cursor': {'pure': True}, 'execute': {'pure': True}, 'close': {'pure': True}, 'ImageSource': {'pure': True},
                           'BytesIO': {'pure': True}, 'join': {'pure': True}, 'format': {'pure': True},
                           'sqlite_datetime_to_timestamp': {'pure': True}, 'append': {'pure': True}},
-             loops={0: dict(inv=[], types={'tile_dict': 'opaque', 'coords': 'opaque'}, body_trace=[_key_is_full_address]),
-                    1: dict(inv=[], types={'coords': 'opaque', 'loaded_tiles': 'int'}),
-                    2: dict(inv=[], types={'loaded_tiles': 'int'}, body_trace=[_row_lookup])})
+             loops={0: dict(inv=['len(coords) % 3 == 0'], types={'tile_dict': 'opaque', 'coords': 'list[int]'},
+                            body_trace=[_key_is_full_address, _wanted_coords_collected]),
+                    1: dict(inv=['len(coords) % 3 == 0', 'implies(_k == 0, loaded_tiles == 0)'],
+                            types={'coords': 'list[int]', 'loaded_tiles': 'int', 'cur_coords': 'list[int]'},
+                            body_trace=[_chunk_is_whole_triples]),
+                    2: dict(inv=[], types={'loaded_tiles': 'int'}, body_trace=[_row_lookup])},
+             trace=[_bulk_answer_db])
